@@ -45,6 +45,7 @@ func C14(c *Ctx) {
 	c.sliceBoundsRule("C14-11")
 	c.varIndexRule("C14-12")
 	c.deferredResultRule("C14-13")
+	c.errorfRule("C14-14")
 	c.c14Errors()
 	c.c14NilPkg()
 	c.c14Assert()
